@@ -64,7 +64,7 @@ def run(chk, scratch):
     for wi in range(n_worlds):
         wseed = chk.seed * 10 + wi
         d = os.path.join(scratch, "w%d" % wi)
-        w = world2.rich_world(wseed)
+        w = world2.rich_world(wseed, zoo=world2.ZOO_ALL)
         # part of the reference carries IsoQuant-style ids (an extended annotation of an earlier run fed back as reference):
         # the numbers reserved on one chromosome must not influence the ids given out on another one
         id_map = {}
